@@ -135,7 +135,8 @@ def computed_case(ctx, rng):
             s = {x for x, _ in r['fields']}
             common_fields = s if common_fields is None else (common_fields & s)
     srcs = sorted(common_fields or {'x'})[:rng.randint(1, 3)]
-    with_ = {'join': '-', 'constant': 'c', 'format': '{' + srcs[0] + '}/' + '{' + srcs[-1] + '}'}.get(op, '')
+    with_ = {'join': rng.choice(['-', '', ', ']), 'constant': rng.choice(['c', 0, False, 7, '', decimal.Decimal('0'), 0.0]),
+             'format': '{' + srcs[0] + '}/' + '{' + srcs[-1] + '}'}.get(op, '')
     if op == 'callable':
         def fn(row):
             return sum(v for v in (row.get(s) for s in srcs) if v is not None) + 1
